@@ -51,7 +51,8 @@ func c07Check(c C07Case) (r evid.Result) {
 	}
 	r.Class(c.Prefix2 != nil, "an-error-label-dropped-before")
 	r.Class(true, "stage="+c.Stage.Kind)
-	r.Class(c.Prefix != nil, "after-json-parser")
+	r.Class(c.Prefix != nil && c.Prefix.Kind == "json", "after-json-parser")
+	r.Class(c.Prefix != nil && c.Prefix.Kind == "line_format", "two-line_format-stages")
 	store := mockstore.New(recs, mockstore.Caps{})
 	data, err := eng.Eval(store, c.Text, eng.CoverAll(recs))
 	if err != nil {
@@ -273,7 +274,16 @@ func c07Gen(t *rapid.T) C07Case {
 		}
 	}
 	c.Stage = st
-	if c.Prefix != nil && (st.Kind == "line_format" || st.Kind == "label_format") && rapid.IntRange(0, 2).Draw(t, "drop-an-error-label-first") == 0 {
+	if c.Prefix == nil && st.Kind == "line_format" && rapid.IntRange(0, 2).Draw(t, "line-format-twice") == 0 {
+		// Two line_format stages in a row: the second one works on what the first one wrote, and
+		// when it fails that is the line that stays; when the first one fails, that is flagged.
+		first := []gen.TmplPart{{Kind: "lit", Text: "first:"}, {Kind: "label", A: "app"}}
+		if rapid.IntRange(0, 3).Draw(t, "first-fails") == 0 {
+			first = append(first, gen.TmplPart{Kind: "fail_regex", A: "nosuchlabel"})
+		}
+		c.Prefix = &gen.Stage{Kind: "line_format", Tmpl: first}
+	}
+	if c.Prefix != nil && c.Prefix.Kind == "json" && (st.Kind == "line_format" || st.Kind == "label_format") && rapid.IntRange(0, 2).Draw(t, "drop-an-error-label-first") == 0 {
 		c.Prefix2 = &gen.Stage{Kind: "drop", Labels: []string{rapid.SampledFrom([]string{"__error__", "__error_details__"}).Draw(t, "dropped-error-label")}}
 	}
 	stages := append(c.prefixStages(), st)
